@@ -81,8 +81,34 @@ func (w *world) fullSyncProbe() {
 	if err != nil {
 		w.r.Fail("producer-failed", "", "%s could not build a response producer for the honest request of %s (heads %s path %s): %v", R.name, Q.name, shorts(reqHeads), shorts(reqPath), err)
 	}
+	// the tree lock is released before the batches are produced: deliveries to the responder and its own edits
+	// land between the load of the iterator and the batches, and between batches. The response still has to
+	// carry everything the responder held when it handled the request.
+	interleave := func() {
+		if !s.Flip("probe-interleave", 0.25) {
+			return
+		}
+		var cand []int
+		for i, m := range w.msgs {
+			if m.dst == R.idx && m.kind == kHeadUpdate {
+				cand = append(cand, i)
+			}
+		}
+		if len(cand) > 0 && s.Flip("probe-interleave-deliver", 0.7) {
+			w.r.Fault("delivery-during-stream")
+			w.deliver(w.removeMsg(cand[s.Choose("probe-interleave-msg", len(cand))]))
+			return
+		}
+		w.r.Fault("edit-during-stream")
+		w.probeAdds++
+		w.localAdd(R, false, 500000+w.probeAdds)
+	}
+	interleave()
 	var batches []*response.Response
 	for n := 0; ; n++ {
+		if n > 0 {
+			interleave()
+		}
 		b, err := producer.NewResponse(limit)
 		if err != nil {
 			w.r.Fail("producer-failed", "batch", "%s: NewResponse(%d): %v", R.name, limit, err)
